@@ -187,11 +187,11 @@ def run_harness(binary, cases, outdir, tag, shards=8, place="both", timeout=10):
     return [t for t in traces if os.path.getsize(t) > 0], crashes
 
 
-def validate_trace(trace, timeout=3600):
+def validate_trace(trace, timeout=3600, spec="Trace"):
     """TLC trace validation of one ndjson trace. Returns (violations, events)."""
     md = trace + ".md"
     r = java(["-Xss1g", "-Dtlc2.tool.queue.IStateQueue=StateDeque"],
-             ["-workers", "1", "-metadir", md, "-cleanup", "-noGenerateSpecTE", "-config", "Trace.cfg", "Trace.tla"],
+             ["-workers", "1", "-metadir", md, "-cleanup", "-noGenerateSpecTE", "-config", spec + ".cfg", spec + ".tla"],
              cwd=SPEC, env={"TRACE": trace}, timeout=timeout, xmx="3g")
     shutil.rmtree(md, ignore_errors=True)
     outp = r.stdout
@@ -204,9 +204,9 @@ def validate_trace(trace, timeout=3600):
     return viols, int(m.group(1))
 
 
-def validate_traces(traces, par=8):
+def validate_traces(traces, par=8, spec="Trace"):
     with ThreadPoolExecutor(max_workers=par) as ex:
-        res = list(ex.map(validate_trace, traces))
+        res = list(ex.map(lambda t: validate_trace(t, spec=spec), traces))
     viols, events = [], 0
     for v, e in res:
         viols.extend(v)
@@ -220,3 +220,25 @@ def run_sweep(binary, which, tables, name, stride=1, timeout=3600):
     if r.returncode != 0:
         raise ToolError("sweep %s failed:\n%s" % (which, r.stdout[-2000:]))
     return json.loads(r.stdout.strip().splitlines()[-1])
+
+
+def merge_case_major(trace_sets, out_path):
+    """trace_sets: list (one per configuration) of trace files of the SAME shard. Writes all runs of
+    configuration 1, 2, ... for run 0, then for run 1, ... (a pure reordering of lines)."""
+    per_cfg = []
+    for path in trace_sets:
+        runs = {}
+        if os.path.exists(path):
+            for line in open(path):
+                m = re.search(r'"run":(\d+)', line)
+                runs.setdefault(int(m.group(1)), []).append(line)
+        per_cfg.append(runs)
+    allruns = sorted(set().union(*[set(r) for r in per_cfg]))
+    n = 0
+    with open(out_path, "w") as f:
+        for r in allruns:
+            for runs in per_cfg:
+                for line in runs.get(r, []):
+                    f.write(line)
+                    n += 1
+    return n
